@@ -8,7 +8,8 @@ RULE = ("hash_to_exp on byte strings of length 0..300 (block boundaries 111,112,
         "byte orders; Schnorr / Chaum-Pedersen / ciphertext-bound challenges read off prover outputs; the shuffle's per-ciphertext "
         "challenges (N up to 64; 1000 in thorough) and final challenge through the hook — all equal to the Gallina SHA-512 over "
         "the model transcript; each evaluated again in a fresh process; battery: every single-item perturbation of every transcript "
-        "changes the implementation's challenge, per-index challenges pairwise distinct")
+        "changes the implementation's challenge, per-index challenges pairwise distinct"
+        " Added in session 3: every sigma challenge recomputed with hashlib from the documented transcript;")
 
 
 def ref_map_bytes(entries):
